@@ -1,6 +1,8 @@
 package main
 
 import (
+	"runtime/debug"
+	"os"
 	"fmt"
 	"go/constant"
 	"go/token"
@@ -137,6 +139,9 @@ func (x *Exec) term(st *State, v Val, embed bool) string {
 			o := st.objs[a.ObjID]
 			if o.Kind == objStruct && o.SI != nil && o.SI.PtrRegime {
 				if embed {
+					if os.Getenv("GOVC_TRACE") != "" && !o.Frozen {
+						fmt.Fprintf(os.Stderr, "FREEZE %v\n%s\n", o.T, debug.Stack())
+					}
 					o.Frozen = true
 				}
 				return x.structTerm(st, o, embed)
@@ -144,10 +149,26 @@ func (x *Exec) term(st *State, v Val, embed bool) string {
 		}
 		limitf("address used as a value (%v)", a.T)
 	}
+	if v.T == "" && v.LazyTail != nil {
+		t := v.LazyBase
+		for _, e := range v.LazyTail {
+			t = fmt.Sprintf("(%s.snoc %s %s)", v.S, t, x.term(st, e, embed))
+		}
+		return t
+	}
 	if v.T == "" {
 		limitf("value without term (sort %q, type %v)", v.S, v.GT)
 	}
 	return v.T
+}
+
+// liveRecord: v is a pointer to a local record that has not been embedded in another value yet.
+func (x *Exec) liveRecord(st *State, v Val) bool {
+	if v.A == nil || v.T != "" || v.A.ObjID <= 0 || len(v.A.Path) != 0 {
+		return false
+	}
+	o := st.objs[v.A.ObjID]
+	return o != nil && o.Kind == objStruct && o.SI != nil && o.SI.PtrRegime && !o.Frozen
 }
 
 func (x *Exec) structTerm(st *State, o *Obj, embed bool) string {
@@ -1098,6 +1119,31 @@ func (x *Exec) slice(st *State, in *ssa.Slice, set func(ssa.Value, Val)) {
 		// a sequence literal: the canonical snoc term (so that specifications can name the same
 		// sequence), plus ground facts about its length and elements (consequences of the axioms,
 		// stated to spare the solver the unfolding)
+		onlyAppend := in.Referrers() != nil && len(*in.Referrers()) > 0
+		if onlyAppend {
+			for _, r := range *in.Referrers() {
+				if _, dbg := r.(*ssa.DebugRef); dbg {
+					continue
+				}
+				c, ok := r.(*ssa.Call)
+				if !ok {
+					onlyAppend = false
+					break
+				}
+				if b, ok := c.Call.Value.(*ssa.Builtin); !ok || b.Name() != "append" || len(c.Call.Args) != 2 || c.Call.Args[1] != ssa.Value(in) {
+					onlyAppend = false
+					break
+				}
+			}
+		}
+		for _, e := range o.Vals {
+			if onlyAppend && x.liveRecord(st, e) {
+				// the array holds a pointer to a record that is still being filled in (the variadic argument of
+				// append(s, col)): keep the elements, read them when the sequence is needed as a value
+				set(in, Val{S: s, LazyBase: s + ".empty", LazyTail: append([]Val(nil), o.Vals...), Elems: append([]Val(nil), o.Vals...)})
+				return
+			}
+		}
 		t := s + ".empty"
 		var elems []Val
 		var ets []string
